@@ -93,7 +93,14 @@ def extremaOk (ms : List GlyphMetric) (advMax minFirst minSecond maxExtent : Int
   let me := (maxOfInts (withB.map fun (_, sb, ba) => sb + ba)).getD 0
   advOk && minFirst == mf && minSecond == ms2 && maxExtent == me
 
-def handle : Handler := fun s =>
+def handleCore (directed : Bool) : Handler := fun s =>
+  match s.field? "panic" with
+  | some msg =>
+    -- the random stream only generates in-range, closed, acyclic glyph sets: a panic there is a failure;
+    -- the directed stream deliberately visits overflow points that belong to property C19
+    if directed then { corr := none, oracle := none, tags := ["panic"], detail := toString (Sexp.list msg) }
+    else { corr := some false, oracle := none, cls := "impl-panic", detail := toString (Sexp.list msg) }
+  | none =>
   let r : Option Verdict := do
     let asc ← (← s.field1? "asc").asRat?
     let desc ← (← s.field1? "desc").asRat?
@@ -141,7 +148,11 @@ def handle : Handler := fun s =>
         && iVmtx == some (mtxWords vm))
     let glyphs : List Glyph := (shapes.zip boxes).map fun (sh, b) => ⟨sh, b⟩
     let mMaxp := buildMaxp glyphs
-    let maxpAgree := match mMaxp with
+    let maxpNarrow := match mMaxp with
+      | some m => m.maxPoints > 65535 || m.maxContours > 65535 || m.maxCompositePoints > 65535 ||
+                  m.maxCompositeContours > 65535 || m.maxComponentElements > 65535 || m.maxComponentDepth > 65535
+      | none => false
+    let maxpAgree := maxpNarrow || match mMaxp with
       | some m => iMaxp == [m.numGlyphs, m.maxPoints, m.maxContours, m.maxCompositePoints, m.maxCompositeContours,
                             m.maxComponentElements, m.maxComponentDepth]
       | none => false
@@ -205,7 +216,7 @@ def handle : Handler := fun s =>
     -- (e) maxp maxima from the spec functions
     let gids := List.range n
     let comp := gids.filter (isComposite shapes)
-    let maxpOk := iMaxp == [n,
+    let maxpOk := maxpNarrow || iMaxp == [n,
       listMax (shapes.map fun sh => match sh with | .simple cs => (cs.map List.length).sum | _ => 0),
       listMax (shapes.map fun sh => match sh with | .simple cs => cs.length | _ => 0),
       listMax (comp.map (specPoints shapes fuel)),
@@ -258,6 +269,11 @@ def handle : Handler := fun s =>
       (if (shapes.any fun sh => match sh with
           | .composite comps => (resolvedPoints shapes fuel comps Affine.identity).any fun p => !(inI16 (otRound p.1) && inI16 (otRound p.2))
           | _ => false) then ["bbox-saturated"] else []) ++
+      (if maxpNarrow then ["maxp-out-of-u16"] else []) ++
+      (if allCps.isEmpty then ["no-codepoints"] else []) ++
+      (if (shapes.any fun sh => match sh with
+          | .composite comps => (resolvedPoints shapes fuel comps Affine.identity).isEmpty
+          | _ => false) then ["empty-composite-counted"] else []) ++
       (if !hInRange then ["h-clamped"] else []) ++ (if !avgInRange then ["avg-out-of-i16"] else []) ++
       (if fmtNat == 1 then ["loca-long"] else []) ++
       (if avgOfF32 nz.length nz.sum != avgExact then ["avg-f32-differs"] else [])
@@ -266,5 +282,9 @@ def handle : Handler := fun s =>
         s!"model: hhea={repr [(hm.advanceMax : Int), hm.minFirst, hm.minSecond, hm.maxExtent, hm.longMetrics.length]} maxp={repr mMaxp} head={repr hb} os2={repr ([mAvg, (mFirst : Int), (mLast : Int)])} ur={repr ur} cpr={repr cpr} avgExact={avgExact}"
     some { corr := some corr, oracle := some oracle, nontrivial := nt, cls := cls, tags := tags, detail := detail }
   r.getD (badInput "c17: cannot parse case")
+
+def handle : Handler := handleCore false
+/-- directed excluded-point cases (stream `c17x`) -/
+def handleX : Handler := handleCore true
 
 end Fontc.Driver.C17
